@@ -95,8 +95,8 @@ def run_cases(mod, tier, seed, shard, nshards, deadline):
             res["violations"].append(v)
     res["sigs"] = sorted(str(x) for x in sigs)
     try:
-        from . import spin
-        if spin._state["installed"]:
+        spin = sys.modules.get("vlib.spin")       # (this file runs as a script in the shards: no relative import)
+        if spin is not None and spin._state["installed"]:
             # what the non-termination guard saw: the most function entries + jumps inside adb_shell between two transport calls, and how often it fired
             res["stats"]["max_library_events_between_transport_calls"] = max(spin.peak(), spin._state["count"])
             res["stats"]["spin_guard_fired"] = spin.tripped()
